@@ -591,6 +591,34 @@ func ruleSocketDir(c *Ctx) {
 		c.R.Violate("R-RES/socketdir", p.Pos(kill.Node()), kill.Name, "socket dir read", "Kill no longer reads the socket directory it has to remove", nil)
 		return
 	}
+	// the local is bound once: any other assignment (in Kill or its literals)
+	// changes which directory the deferred removal sees
+	nDefs := 0
+	var reDef ast.Node
+	ast.Inspect(kill.Body, func(x ast.Node) bool {
+		switch s := x.(type) {
+		case *ast.AssignStmt:
+			for _, l := range s.Lhs {
+				if id, ok := ast.Unparen(l).(*ast.Ident); ok && (kinfo.Defs[id] == dirVar || kinfo.Uses[id] == dirVar) {
+					nDefs++
+					if nDefs > 1 {
+						reDef = s
+					}
+				}
+			}
+		case *ast.UnaryExpr:
+			if s.Op == token.AND && identObj(kinfo, s.X) == dirVar {
+				nDefs++
+				reDef = s
+			}
+		}
+		return true
+	})
+	if nDefs > 1 {
+		c.R.Violate("R-RES/socketdir", p.Pos(reDef), kill.Name, "socket dir local bound once", "the local holding the socket directory is assigned again (or its address is taken) after it was read from the client: on that path the deferred removal sees another value (for instance \"\") and the temporary directory created for the runner is left behind", nil)
+	} else {
+		c.R.Hold("R-RES/socketdir", p.Pos(kill.Node()), kill.Name, "socket dir local bound once", "single assignment from UnixSocketConfig.socketDir", true)
+	}
 	p.killDefer(c, "R-RES/socketdir", "Kill removes the socket directory", func(lit *Func) bool {
 		info := lit.Pkg.TypesInfo
 		for _, call := range lit.Calls() {
@@ -921,13 +949,13 @@ func ruleCtx(c *Ctx) {
 				check(f, call, "newGRPCClient(ctx)", SelField(info, call.Args[0]) == doneF, "first argument must be Client.doneCtx")
 			case full == modPath+".newGRPCStdioClient":
 				v, _ := identObj(info, call.Args[0]).(*types.Var)
-				check(f, call, "newGRPCStdioClient(ctx)", v != nil && isParamOf(info, f, v) && paramIndex(f, v) == 0, "first argument must be the doneCtx parameter")
+				check(f, call, "newGRPCStdioClient(ctx)", v != nil && isParamOf(info, f, v) && paramIndex(f, v) == 0 && !assignedIn(info, f, v), "first argument must be the doneCtx parameter, as received")
 			case full == modPath+".GRPCPlugin.GRPCClient":
 				fv := SelField(info, call.Args[0])
 				check(f, call, "GRPCPlugin.GRPCClient(ctx)", fv != nil && p.FieldName(fv) == "GRPCClient.doneCtx", "first argument must be GRPCClient.doneCtx")
 			case strings.HasSuffix(full, "/internal/plugin.GRPCStdioClient.StreamStdio"):
 				v, _ := identObj(info, call.Args[0]).(*types.Var)
-				check(f, call, "StreamStdio(ctx)", v != nil && isParamOf(info, f, v), "first argument must be the context parameter")
+				check(f, call, "StreamStdio(ctx)", v != nil && isParamOf(info, f, v) && !assignedIn(info, f, v), "first argument must be the context parameter, as received (not re-bound to a derived context: a deadline or cancellation added here ends the long-lived stdio stream)")
 			}
 		}
 		// GRPCClient literal stores the parameter
@@ -958,6 +986,22 @@ func ruleCtx(c *Ctx) {
 	if n < 5 {
 		c.R.Undecided("R-CTX", "", "instance-floor", fmt.Sprintf("only %d context hand-offs found, 5 were confirmed by hand", n))
 	}
+}
+
+// assignedIn: v is the target of an assignment somewhere in f (including literals).
+func assignedIn(info *types.Info, f *Func, v *types.Var) bool {
+	found := false
+	ast.Inspect(f.Body, func(x ast.Node) bool {
+		if as, ok := x.(*ast.AssignStmt); ok {
+			for _, l := range as.Lhs {
+				if id, ok := ast.Unparen(l).(*ast.Ident); ok && (info.Uses[id] == v || info.Defs[id] == v) {
+					found = true
+				}
+			}
+		}
+		return true
+	})
+	return found
 }
 
 func paramIndex(f *Func, v *types.Var) int {
